@@ -259,21 +259,26 @@ impl DateFilter for ds::YearRange {
 }
 
 /// Project date on a given year.
-fn date_on_year(
+fn date_on_year<D: Into<Option<NaiveDate>>>(
     date: ds::Date,
     for_year: i32,
-    date_builder: impl FnOnce(i32, u32, u32) -> NaiveDate,
+    date_builder: impl FnOnce(i32, u32, u32) -> D,
 ) -> Option<NaiveDate> {
     match date {
         ds::Date::Easter { year } => easter(year.map(Into::into).unwrap_or(for_year)),
         ds::Date::Fixed { year: None, month, day } => {
-            Some(date_builder(for_year, month.into(), day.into()))
+            date_builder(for_year, month.into(), day.into()).into()
         }
         ds::Date::Fixed { year: Some(year), month, day } if i32::from(year) == for_year => {
-            Some(date_builder(year.into(), month.into(), day.into()))
+            date_builder(year.into(), month.into(), day.into()).into()
         }
         _ => None,
     }
+}
+
+/// Get the date for given "yyyy/mm/dd" only if it is valid.
+fn exact_ymd(year: i32, month: u32, day: u32) -> Option<NaiveDate> {
+    NaiveDate::from_ymd_opt(year, month, day)
 }
 
 /// If the start of the range is attached to a year, then the range describes a single interval
@@ -325,12 +330,16 @@ impl DateFilter for ds::MonthdayRange {
             } => {
                 let year = date.year();
 
-                if *start == Date::md(29, Month::February) && *end == Date::md(29, Month::February)
+                // When both bounds target the same day of the year, only the years where this
+                // day exists can match (eg. "Feb 29" during leap years, "Apr 31" never).
+                if matches!(start, Date::Fixed { .. })
+                    && start == end
+                    && (start_offset == end_offset || *start == Date::md(29, Month::February))
                 {
                     return is_open_from_intervals(
                         date,
-                        (year - 1..=DATE_END.year())
-                            .filter_map(|y| NaiveDate::from_ymd_opt(y, 2, 29))
+                        (year - 1..=year + 1)
+                            .filter_map(|y| date_on_year(*start, y, exact_ymd))
                             .map(|d| start_offset.apply(d)..=end_offset.apply(d)),
                     );
                 }
@@ -408,12 +417,14 @@ impl DateFilter for ds::MonthdayRange {
             } => {
                 let year = date.year();
 
-                if *start == Date::md(29, Month::February) && *end == Date::md(29, Month::February)
+                if matches!(start, Date::Fixed { .. })
+                    && start == end
+                    && (start_offset == end_offset || *start == Date::md(29, Month::February))
                 {
                     return Some(next_change_from_intervals(
                         date,
-                        (year - 1..=DATE_END.year())
-                            .filter_map(|y| NaiveDate::from_ymd_opt(y, 2, 29))
+                        (year - 1..=year + 10)
+                            .filter_map(|y| date_on_year(*start, y, exact_ymd))
                             .map(|d| start_offset.apply(d)..=end_offset.apply(d)),
                     ));
                 }
